@@ -530,36 +530,65 @@ def r7_windash(ctx) -> None:
     r.rule("C03.R7", "windash: parameter-position dashes are found with the pattern \\B[-/]\\b compiled without flags (Unicode word boundaries) and replaced by exactly '-', '/', en dash, em dash, horizontal bar")
     f = prog.func(M + ".SigmaWindowsDashModifier.modify")
     c = prog.cls(M + ".SigmaWindowsDashModifier")
-    comps = [x for x in ast.walk(c.node) if isinstance(x, ast.Call) and call_name(x) == "re.compile"]
-    if len(comps) != 1:
-        raise AnalysisError(f"{c.qual}: expected one re.compile")
-    pat = const_eval(prog, f.module, comps[0].args[0])
-    loc = f"{f.module.relpath}:{comps[0].lineno}"
-    if pat == "\\B[-/]\\b" and len(comps[0].args) == 1 and not comps[0].keywords:
-        r.ok("C03.R7", c.qual, f"re.compile({pat!r}) without flags", loc)
+    # modify() interpreted (sa.tabulate, Proxy) on a recording stand-in string: which pattern marks the dashes, under which
+    # placeholder name, and what the replacement callback yields for that placeholder and for a foreign one
+    import re as _re
+    from ..tabulate import Proxy, call_method, Raised
+
+    class Placeholder:
+        def __init__(self, name): self.name = name
+
+    class SigmaExpansion:
+        def __init__(self, values): self.values = list(values)
+
+    seen = {}
+
+    class _Marked:
+        def replace_placeholders(self, callback):
+            own, foreign = Placeholder(seen["name"]), Placeholder("user_defined")
+            seen["own"] = list(callback(own))
+            got = list(callback(foreign))
+            seen["foreign_kept"] = len(got) == 1 and got[0] is foreign
+            return ["<variants>"]
+
+    class _Val:
+        def replace_with_placeholder(self, regex, name):
+            seen["regex"], seen["name"] = regex, name
+            return _Marked()
+
+    env = {"re": _re, "Placeholder": Placeholder, "SigmaExpansion": SigmaExpansion, "cast": lambda t, v: v, "SigmaType": object}
+    IK = {"max_steps": 4000}
+    try:
+        out = call_method(prog, c.qual, "modify", Proxy(prog, c.qual, env, {"applied_modifiers": [], "source": None}, interp_kwargs=IK), env, _Val(), interp_kwargs=IK)
+    except Raised as ex:
+        out = ex
+    if not isinstance(seen.get("regex"), _re.Pattern) or "own" not in seen:
+        raise AnalysisError(f"{f.qual}: the value is not marked with replace_with_placeholder(<pattern>, <name>) and expanded with replace_placeholders (result {out!r})")
+    rx = seen["regex"]
+    ref = _re.compile("\\B[-/]\\b")
+    samples = ["-a", "/a", "a-b", " -param", "--x", "-\u00e9", "\u00e9-\u00e9", "a -1", "-", "x/-y", "cmd /c -enc", "\u00e9 -\u00e9", "a/b", "- a", "-_a", "(-x)"]
+    diff = [t for t in samples if [m.span() for m in rx.finditer(t)] != [m.span() for m in ref.finditer(t)]]
+    if not diff and rx.flags == ref.flags:
+        r.ok("C03.R7", c.qual, f"dash pattern {rx.pattern!r} without flags: marks the same positions as \\B[-/]\\b on {len(samples)} sample texts (incl. non-ASCII letters)", f.loc)
     else:
-        r.violation("C03.R7", c.qual, short(comps[0], 80), "dash positions must be found with \\B[-/]\\b and default (Unicode) word boundaries: with re.ASCII a dash before a non-ASCII letter is missed and one between non-ASCII letters is wrongly expanded", loc)
-    consts = {}
-    for nm, code in (("en_dash", 0x2013), ("em_dash", 0x2014), ("horizontal_bar", 0x2015)):
-        a = prog.lookup_class_attr(c.qual, nm)
-        try:
-            v = eval(compile(ast.Expression(body=a[1].value), "<c>", "eval"), {"__builtins__": {"chr": chr, "int": int}}) if a else None  # noqa: S307
-        except Exception:
-            v = None
-        consts[nm] = v
-        if v == chr(code):
-            r.ok("C03.R7", c.qual, f"{nm} = U+{code:04X}")
-        else:
-            r.violation("C03.R7", c.qual, f"{nm} = {v!r}", f"expected U+{code:04X}")
-    ys = [x for x in ast.walk(f.node) if isinstance(x, ast.YieldFrom)]
-    if ys and unparse(ys[0].value).replace('"', "'") == "('-', '/', self.en_dash, self.em_dash, self.horizontal_bar)":
-        gs = [unparse(n.test).replace('"', "'") for n in ast.walk(f.node) if isinstance(n, ast.If)]
-        if "p.name == '_windash'" in gs and any(isinstance(x, ast.Yield) and unparse(x.value) == "p" for x in ast.walk(f.node)):
-            r.ok("C03.R7", f.qual, "five variants for the internal placeholder, other placeholders handed back", f.loc)
-        else:
-            r.violation("C03.R7", f.qual, "callback", "other placeholders must be yielded back unchanged", f.loc)
+        r.violation("C03.R7", c.qual, f"re.compile({rx.pattern!r}, flags={rx.flags})", "dash positions must be found with \\B[-/]\\b and default (Unicode) word boundaries: with re.ASCII a dash before a non-ASCII letter is missed and one between non-ASCII letters is wrongly expanded" + (f" (differs on {diff[0]!r})" if diff else ""), f.loc)
+    want = ["-", "/", chr(0x2013), chr(0x2014), chr(0x2015)]
+    if seen["own"] == want:
+        r.ok("C03.R7", f.qual, "five variants '-', '/', U+2013, U+2014, U+2015 for the internal placeholder", f.loc)
     else:
-        r.violation("C03.R7", f.qual, short(ys[0].value, 80) if ys else "yield from", "dash variants must be exactly ('-', '/', en dash, em dash, horizontal bar)", f.loc)
+        r.violation("C03.R7", f.qual, f"variants {seen['own']!r}", "dash variants must be exactly ('-', '/', en dash, em dash, horizontal bar)", f.loc)
+    if seen["foreign_kept"]:
+        r.ok("C03.R7", f.qual, "other placeholders handed back", f.loc)
+    else:
+        r.violation("C03.R7", f.qual, "callback", "other placeholders must be yielded back unchanged", f.loc)
+    if isinstance(out, SigmaExpansion) and out.values == ["<variants>"]:
+        r.ok("C03.R7", f.qual, "returns the expansion of all variants", f.loc)
+    else:
+        r.violation("C03.R7", f.qual, f"returns {out!r}", "the modifier must return the expansion of all variants", f.loc)
+    if str(seen["name"]).startswith("_"):
+        r.ok("C03.R7", f.qual, f"internal placeholder name {seen['name']!r} starts with '_'", f.loc)
+    else:
+        r.violation("C03.R7", f.qual, f"placeholder name {seen['name']!r}", "the internal placeholder must not collide with user placeholders", f.loc)
     r.floor("C03.R7", 5)
 
 
@@ -685,7 +714,18 @@ def r11_placeholder_delimiters(ctx) -> None:
     r, prog = ctx.r, ctx.prog
     r.rule("C03.R11", "placeholder pattern: the opening '%' is not preceded by a backslash (negative look-behind) and the closing '%' cannot be an escaped one (the name class excludes '\\' and '%', or the closing delimiter has its own look-behind)")
     f = prog.func("sigma.types.SigmaString.insert_placeholders")
-    pats = [c for c in walk_no_nested(f.node) if isinstance(c, ast.Call) and call_name(c) in ("re.finditer", "re.compile", "re.search", "re.sub") and c.args]
+    pats = [c for c in ast.walk(f.node) if isinstance(c, ast.Call) and call_name(c) in ("re.finditer", "re.compile", "re.search", "re.sub") and c.args]
+    # a pattern compiled once at module or class level and used here through its name
+    for c in ast.walk(f.node):
+        if isinstance(c, ast.Call) and isinstance(c.func, ast.Attribute) and c.func.attr in ("finditer", "search", "sub", "match", "split", "findall"):
+            recv = c.func.value
+            defs = []
+            if isinstance(recv, ast.Name):
+                defs = [st.value for st in f.module.assigns.get(recv.id, []) if getattr(st, "value", None) is not None]
+            elif isinstance(recv, ast.Attribute) and unparse(recv.value) in ("self", "cls", "self.__class__") and f.cls is not None:
+                a_ = prog.lookup_class_attr(f.cls.qual, recv.attr)
+                defs = [a_[1].value] if a_ and getattr(a_[1], "value", None) is not None else []
+            pats += [d for d in defs if isinstance(d, ast.Call) and call_name(d) == "re.compile" and d.args]
     if not pats:
         raise AnalysisError(f"{f.qual}: placeholder pattern not found")
     for c in pats:
